@@ -116,6 +116,21 @@ def sh(cmd, **kw):
     return subprocess.run(cmd, shell=isinstance(cmd, str), check=True, **kw)
 
 
+class repo_lock:
+    """serialises the moments at which /repo's working tree is read (and, for --patch, briefly modified)"""
+
+    def __enter__(self):
+        import fcntl
+        self.f = open(os.path.join(SCRATCH_PARENT, "fpverif.lock"), "w")
+        fcntl.flock(self.f, fcntl.LOCK_EX)
+        return self
+
+    def __exit__(self, *a):
+        import fcntl
+        fcntl.flock(self.f, fcntl.LOCK_UN)
+        self.f.close()
+
+
 def make_scratch():
     os.makedirs(SCRATCH_PARENT, exist_ok=True)
     return tempfile.mkdtemp(prefix="fpverif.", dir=SCRATCH_PARENT)
